@@ -445,6 +445,8 @@ impl<'a, W: 'static, R: 'static, T: 'static> RuntimeScope<'a, W, R, T> {
                                     return Err(RuntimeViolation::MaximumRecursion);
                                 }
                             }
+                            // a tail iteration re-enters the function: the time limit applies to it as to any call
+                            rt.check_timeout()?;
                             args = new_args;
                         }
                         v => break Ok(v),
